@@ -325,6 +325,11 @@ convert(struct func *f, struct type *dst, struct type *src, struct value *l)
 	} else {
 		class = dst->size == 8 ? 'd' : 's';
 		if (src->prop & PROPINT) {
+			/* the conversions read a whole word: extend a narrower value first */
+			if (src->size < 4) {
+				l = convert(f, src->u.basic.issigned ? &typeint : &typeuint, src, l);
+				src = src->u.basic.issigned ? &typeint : &typeuint;
+			}
 			if (src->u.basic.issigned)
 				op = src->size == 8 ? ISLTOF : ISWTOF;
 			else
